@@ -46,6 +46,11 @@ func (h *H) mutants(V *built, specs []Mut, vAcl int) ([]mutant, error) {
 
 	var out []mutant
 	add := func(i int, data []byte, id, class, desc string, signed bool) {
+		if specs[i].Keep {
+			id = V.raw.Id
+			class += "-same-id"
+			desc += " (carrying the original's id)"
+		}
 		if bytes.Equal(data, orig) && id == V.raw.Id {
 			return // byte-identical to the original: not an alteration
 		}
@@ -177,6 +182,13 @@ func (h *H) mutants(V *built, specs []Mut, vAcl int) ([]mutant, error) {
 				return nil, err
 			}
 			add(i, d, cidOf(d), "field-changed-old-signature", how+", payload re-encoded, signature kept, id recomputed", true)
+		case "other":
+			// the bytes of another genuine change
+			if len(poolIds) == 0 {
+				continue
+			}
+			o := h.pool[poolIds[m.A%len(poolIds)]]
+			add(i, append([]byte(nil), o.raw.RawChange...), o.raw.Id, "other-change-bytes", "the bytes of another valid change", true)
 		case "fake_derived":
 			rc := &treechangeproto.RootChange{ChangeType: "verif.derived", ChangePayload: []byte(fmt.Sprintf("p%d", m.A)), SpaceId: h.w.SpaceId, IsDerived: true}
 			p2, err := rc.MarshalVT()
